@@ -288,6 +288,18 @@ fn spec_check(o: &Opts, ob: &Obs) -> Option<String> {
   if nodes != want_nodes {
     return Some(format!("nodes {nodes:?}, requested {want_nodes:?}"));
   }
+  // `md5sum` for every file when --md5 was given, for none otherwise (what the sums say is C01's business)
+  let entries: Vec<&B> = match info.get("files").and_then(|f| f.as_list()) {
+    Some(l) => l.iter().collect(),
+    None => vec![info],
+  };
+  for (i, e) in entries.iter().enumerate() {
+    match (o.md5, get_str(e, "md5sum")) {
+      (true, Some(m)) if m.len() == 32 && m.bytes().all(|b| b.is_ascii_digit() || (b'a'..=b'f').contains(&b)) => {}
+      (false, None) => {}
+      (w, g) => return Some(format!("--md5 given={w}, entry {i} of {} has md5sum {g:?}", entries.len())),
+    }
+  }
   match (o.no_created_by, get_str(&v, "created by")) {
     (true, None) => {}
     (false, Some(s)) if s.starts_with("imdl/") => {}
@@ -404,5 +416,48 @@ pub fn run(ctx: &Ctx) -> Report {
     }
   }
   report.model_requests = model.requests;
+  stdout_is_the_file(ctx, &mut report);
   report
+}
+
+/// `--output -` writes the very bytes `--output FILE` writes, however long they are and whatever bytes they hold (line
+/// breaks in a comment, 0x0A inside piece hashes, kilobytes after the last of them).
+fn stdout_is_the_file(ctx: &Ctx, report: &mut Report) {
+  let only: Option<Vec<String>> = super::replay_cases(ctx).map(|rc| rc.iter().filter_map(|v| v.get("stdout_vs_file").and_then(|s| s.as_str()).map(|s| s.to_string())).collect());
+  for (label, n_files, file_len, comment) in [("sixty-files-two-line-comment", 60usize, 10usize, Some("first line\nsecond line")), ("one-file-three-hundred-pieces", 1, 300 * 16384 - 7, None), ("forty-files-comment-ends-in-line-break", 40, 3, Some("ends in a line break\n")), ("two-files", 2, 5, Some("a\nb"))] {
+    if let Some(o) = &only {
+      if !o.iter().any(|x| x == label) {
+        continue;
+      }
+    }
+    let sb = Sandbox::new(&ctx.work, "c05o");
+    for i in 0..n_files {
+      let data: Vec<u8> = (0..file_len).map(|j| ((i * 131 + j * 7 + j / 251) % 256) as u8).collect();
+      if n_files == 1 {
+        sb.write("content", &data);
+      } else {
+        sb.write(&format!("content/file-number-{i:03}"), &data);
+      }
+    }
+    let mut args = vec!["torrent", "create", "--input", "content", "--no-creation-date", "--md5", "--announce", "http://t.example/announce"];
+    if let Some(c) = comment {
+      args.extend(["--comment", c]);
+    }
+    let mut to_file = args.clone();
+    to_file.extend(["--output", "o.torrent"]);
+    let mut to_stdout = args.clone();
+    to_stdout.extend(["--output", "-"]);
+    let f = Cmd::new(&ctx.imdl, &to_file).cwd(&sb.root).run();
+    let o = Cmd::new(&ctx.imdl, &to_stdout).cwd(&sb.root).run();
+    let q = Cmd::new(&ctx.imdl, &[&["--quiet"][..], &to_stdout[..]].concat()).cwd(&sb.root).run();
+    let file = std::fs::read(sb.path("o.torrent")).unwrap_or_default();
+    let case = json!({"stdout_vs_file": label});
+    report.case(Some(fnv_str(&case.to_string())));
+    report.hit("output:stdout-against-file");
+    if !f.ok() || !o.ok() || !q.ok() || bencode::decode(&file).is_err() {
+      report.fail("property", "create-failed", case, format!("to a file: {}, to standard output: {}, quietly: {}", f.status_s(), o.status_s(), q.status_s()));
+    } else if o.stdout != file || q.stdout != file {
+      report.fail("property", "created-metainfo-differs-from-request", case, format!("--output FILE wrote {} bytes, --output - wrote {} ({} with --quiet); they {} as bencode", file.len(), o.stdout.len(), q.stdout.len(), if bencode::decode(&o.stdout).is_ok() { "decode" } else { "do not decode" }));
+    }
+  }
 }
